@@ -4,7 +4,9 @@ package shell
 
 // C25 -- remote shell runs only authorised commands.
 // Input half: c25Inputs (inputs_test.go). Schedule half (session maximum under
-// all interleavings) is added by a second file and hooked in below.
+// all interleavings of the Executor: sched_test.go; of the Handler's META delivery against the
+// close of the same stream: handler_sched_test.go) and handler histories with real processes
+// (handler_test.go) are hooked in below.
 
 import (
 	"testing"
@@ -17,6 +19,7 @@ func TestVerif_C25(t *testing.T) {
 	c25Inputs(r)
 	// C25-SCHED-HOOK
 	c25Sched(r)
+	c25HandlerSched(r) // before the handler histories: those leave free-running goroutines behind
 	c25Handler(r)
 	if err := r.Finish(); err != nil {
 		t.Fatal(err)
